@@ -10,3 +10,12 @@ def collect(P):
            r"else if self\.weights\.len\(\) == 1 \{[^}]*?let num_should_clauses = usize::from\(occur == Occur::Should\);\s*"
            r"if occur == Occur::MustNot \|\| self\.minimum_number_should_match > num_should_clauses \{\s*"
            r"Ok\(Box::new\(EmptyScorer\)\)\s*\} else \{\s*weight\.scorer\(reader, boost\)")
+
+    # ExistsWeight::scorer: below this number of non-empty columns the per-document ExistsDocSet is used,
+    # from it on a bitset of the non-null documents of every column is precomputed
+    P.int_const("C03_EXISTS_BITSET_MIN_COLUMNS", "src/query/exist_query.rs", r"if non_empty_columns\.len\(\) < (\d+) \{")
+    # 1 iff the bitset loop inserts the non-null documents of Optional columns / of Multivalued columns
+    P.flag("C03_EXISTS_BITSET_OPTIONAL", "src/query/exist_query.rs",
+           r"let mut doc_bitset = BitSet::with_max_value\(max_doc\);.*?ColumnIndex::Optional\((\w+)\) (?:=>|= column\.column_index\(\)) \{\s*for doc in \1\.iter_non_null_docs\(\) \{\s*doc_bitset\.insert\(doc\);.*?BitSetDocSet::from\(doc_bitset\)")
+    P.flag("C03_EXISTS_BITSET_MULTIVALUED", "src/query/exist_query.rs",
+           r"let mut doc_bitset = BitSet::with_max_value\(max_doc\);.*?ColumnIndex::Multivalued\((\w+)\) (?:=>|= column\.column_index\(\)) \{\s*for doc in \1\.iter_non_null_docs\(\) \{\s*doc_bitset\.insert\(doc\);.*?BitSetDocSet::from\(doc_bitset\)")
